@@ -231,10 +231,14 @@ def rule_p3(repo):
     # a list of conditions yields one condition per adjacent pair, text and HOL form from the same expression
     av = need(gl.nested.get('add_vc'), 'Com.get_lines: nested add_vc not found')
     loop = [n for n in ast.walk(av.node) if isinstance(n, ast.For)]
-    ok = bool(loop) and 'len(%s) - 1' % av.params()[0] in src(loop[0].iter, 80)
+    lsp = av.params()[0]
+    it = src(loop[0].iter, 80).replace(' ', '') if loop else ''
+    ok = bool(loop) and ('len(%s)-1' % lsp in it or it in ('zip(%s,%s[1:])' % (lsp, lsp), 'itertools.pairwise(%s)' % lsp, 'pairwise(%s)' % lsp))
     d = [n for n in ast.walk(av.node) if isinstance(n, ast.Dict)]
     same = False
     if d:
+        kv = {k.value: v for k, v in zip(d[0].keys, d[0].values) if isinstance(k, ast.Constant)}
+        d = sorted(d, key=lambda x: -len(x.keys))
         kv = {k.value: v for k, v in zip(d[0].keys, d[0].values) if isinstance(k, ast.Constant)}
         vcv = [n.targets[0].id for n in ast.walk(av.node) if isinstance(n, ast.Assign) and isinstance(n.targets[0], ast.Name) and
                any(call_name(c) in ('expr.implies',) for c in ast.walk(n.value) if isinstance(c, ast.Call))]
@@ -254,8 +258,11 @@ def rule_p3(repo):
         return [c for st in body for c in ast.walk(st) if isinstance(c, ast.Call) and call_attr(c) == 'compute_wp']
     post_p = wp.params()[1]
     # assignment: post[x := e]
+    from ..flow import flow_of
+    wfl = flow_of(wp.node)
     sub = [c for st in bw['Assign'] for c in ast.walk(st) if isinstance(c, ast.Call) and call_attr(c) == 'subst' and is_name(c.func.value, post_p)]
-    ok = bool(sub) and isinstance(sub[0].args[0], ast.Dict) and src(sub[0].args[0].keys[0]) == 'self.v.name' and src(sub[0].args[0].values[0]) == 'self.e'
+    sarg = wfl.inline(sub[0].args[0]) if sub and sub[0].args else None
+    ok = bool(sub) and isinstance(sarg, ast.Dict) and len(sarg.keys) == 1 and src(sarg.keys[0]) == 'self.v.name' and src(sarg.values[0]) == 'self.e'
     res.add('%s :: Com.compute_wp :: Assign :: post[v := e]' % COM, ok, 'post.subst({v: e})' if ok else
             'the precondition of an assignment is not the postcondition with the assigned variable replaced by the assigned expression', wp.loc)
     # sequence: wp(c1, wp(c2, post))
@@ -264,9 +271,10 @@ def rule_p3(repo):
     if len(cs) == 2:
         by = {path_of(c.func.value): c for c in cs}
         c2, c1 = by.get('self.c2'), by.get('self.c1')
-        if c1 is not None and c2 is not None and is_name(c2.args[0], post_p) and isinstance(c1.args[0], ast.Name):
-            mid = c1.args[0].id
-            ok = any(isinstance(n, ast.Assign) and is_name(n.targets[0], mid) and n.value is c2 for st in bw['Seq'] for n in ast.walk(st))
+        if c1 is not None and c2 is not None and c1.args and c2.args and is_name(c2.args[0], post_p):
+            # the argument of c1's computation is the result of c2's, through a local or directly
+            a1 = wfl.inline(c1.args[0])
+            ok = isinstance(a1, ast.Call) and call_attr(a1) == 'compute_wp' and path_of(a1.func.value) == 'self.c2' and a1.args and is_name(a1.args[0], post_p)
     res.add('%s :: Com.compute_wp :: Seq :: wp(c1, wp(c2, post))' % COM, ok, 'c2 against post, c1 against the result' if ok else
             'the second command is not computed against the postcondition, or the first not against the result of the second', wp.loc)
     # conditional: both branches against post, joined by the test
@@ -274,13 +282,11 @@ def rule_p3(repo):
     ok = len(cs) == 2 and {path_of(c.func.value) for c in cs} == {'self.c1', 'self.c2'} and all(is_name(c.args[0], post_p) for c in cs)
     ite = [c for st in bw['Cond'] for c in ast.walk(st) if isinstance(c, ast.Call) and call_name(c) in ('expr.ITE', 'ITE')]
     if ok and ite:
-        a = ite[0].args
-        names = {}
-        for st in bw['Cond']:
-            for n in ast.walk(st):
-                if isinstance(n, ast.Assign) and isinstance(n.targets[0], ast.Name) and isinstance(n.value, ast.Call) and call_attr(n.value) == 'compute_wp':
-                    names[n.targets[0].id] = path_of(n.value.func.value)
-        ok = len(a) == 3 and path_of(a[0]) == 'self.b' and names.get(getattr(a[1], 'id', None)) == 'self.c1' and names.get(getattr(a[2], 'id', None)) == 'self.c2'
+        a = [wfl.inline(x) for x in ite[0].args]
+
+        def wp_of(x, which):
+            return isinstance(x, ast.Call) and call_attr(x) == 'compute_wp' and path_of(x.func.value) == which
+        ok = len(a) == 3 and path_of(a[0]) == 'self.b' and wp_of(a[1], 'self.c1') and wp_of(a[2], 'self.c2')
     else:
         ok = False
     res.add('%s :: Com.compute_wp :: Cond :: if b then wp(c1) else wp(c2)' % COM, ok, 'ITE(b, wp(c1, post), wp(c2, post))' if ok else
@@ -354,7 +360,8 @@ def rule_p4(repo):
             if not (isinstance(v, ast.Call) and call_name(v) == c.name):
                 bad.append('line %d returns `%s`, not a %s node' % (r.lineno, src(v, 40), c.name))
                 continue
-            txt = src(v, 400)
+            from ..flow import flow_of
+            txt = src(flow_of(sub.node).inline(v), 600)
             for nm, vals in locals_.items():
                 if len(vals) == 1:
                     txt = txt.replace('*' + nm, '*(' + src(vals[0], 300) + ')')
@@ -451,8 +458,11 @@ def rule_p6(repo):
         builds = [r for r in cfg.return_nodes() if r.ast.value is not None and isinstance(r.ast.value, ast.Call) and call_name(r.ast.value) == c.name]
         need(builds, '%s.subst: the rebuilt binder was not found' % c.name)
 
+        from ..flow import flow_of
+        sfl = flow_of(sub.node)
+
         def mentions(e, *names):
-            txt = src(e, 400)
+            txt = src(sfl.inline(e), 400)
             return all(nm in txt for nm in names)
         dom = [t for t in cfg.test_nodes() if compare_parts(t.ast) and compare_parts(t.ast)[0] in (ast.In, ast.NotIn) and
                mentions(t.ast, 'self.' + binder) and is_name(compare_parts(t.ast)[2], inst_p)]
